@@ -140,10 +140,10 @@ def abnormal_exits(ctx, prog, A):
     # halt: default -> cleanup; terminate.  SIGUSR1 -> bailout.  SIGUSR2 -> return
     h = prog.func('signals', 'halt')
     Ph = A.cg.prov(h)
-    sw = [i for i in h.insns() if i.op == 'switch']
-    ctx.require(len(sw) == 1, 'halt(): expected one switch')
-    cases = dict(sw[0].extra['cases'])
-    dflt = sw[0].extra['default']
+    vd = rules.value_dispatch(h, Ph, lambda e: e[0] == 'load' and addr_key(e[1]).startswith('G:signals:handled_signals['))
+    ctx.require(vd is not None, 'halt(): no dispatch (switch or if-chain) on handled_signals[caught_index]')
+    cases, dflt, sv_, anchor_ = vd
+    sw = [anchor_]
     ctx.ob('C16.cleanup', 'halt(): SIGUSR1 leads to bailout()', h.loc(sw[0]),
            SIGUSR1 in cases and must_reach_call(h, cases[SIGUSR1], {'bailout'}) and
            not list(c for c in h.calls('cleanup') if c.block.name == cases[SIGUSR1]) or
@@ -155,10 +155,12 @@ def abnormal_exits(ctx, prog, A):
            not any(x in cfg.reachable(h, cases.get(SIGUSR1, dflt)) for x in rets), '')
     dblk = h.blocks[dflt]
     dcalls = [c.extra.get('callee') for c in dblk.insns if c.op == 'call']
+    if not dcalls and len(dblk.succs) == 1:
+        dcalls = [c.extra.get('callee') for c in h.blocks[dblk.succs[0]].insns if c.op == 'call']
     ctx.ob('C16.cleanup', 'halt(): any other signal runs cleanup() then terminate()', h.loc(sw[0]),
            dcalls[:2] == ['cleanup', 'terminate'], 'default case calls %s' % dcalls)
     # sig is taken from handled_signals[caught_index]
-    sv = strip_casts(Ph.expr(sw[0].ops[0]))
+    sv = sv_
     ctx.ob('C16.cleanup', 'halt() dispatches on handled_signals[caught_index]', h.loc(sw[0]),
            sv[0] == 'load' and addr_key(sv[1]).startswith('G:signals:handled_signals['), render(sv))
     # who may call _exit
@@ -177,9 +179,14 @@ def abnormal_exits(ctx, prog, A):
     g = guards(c, Pc, ul[0].block.name)
     opk = prog.gkey(c.module, 'opathn')
     a = strip_casts(Pc.expr(ul[0].ops[0]))
-    only_null = len(g) == 1 and guard_holds(g, lambda x, pol: pol and ((x[0] == 'icmp' and x[1] == 'ne' and
-                                                                      strip_casts(x[2])[0] == 'load' and strip_casts(x[2])[1][1] == ('G', opk))
-                                                                     or (x[0] == 'load' and x[1][1] == ('G', opk))))
+    def _nonnull(x, pol):
+        if x[0] == 'load' and x[1][1] == ('G', opk):
+            return pol
+        if x[0] == 'icmp' and x[1] in ('ne', 'eq') and strip_casts(x[2])[0] == 'load' and strip_casts(x[2])[1][1] == ('G', opk) \
+                and strip_casts(x[3]) in (('null',), ('const', 0)):
+            return pol if x[1] == 'ne' else not pol
+        return False
+    only_null = len(g) == 1 and guard_holds(g, _nonnull)
     ctx.ob('C16.cleanup', 'cleanup() unlinks opathn whenever it is non-NULL (and for no other reason not)', c.loc(ul[0]),
            only_null and a[0] == 'load' and a[1][1] == ('G', opk), 'guards %s arg %s' % ([render(x) for _, x, _ in g], render(a)))
     # sub-threads never reach _exit / unlink / cleanup
